@@ -491,7 +491,7 @@ package scipipe
 
 //@ func (*Task).Execute(t)
 //@   props C01 C02 C03 C05 C06 C09
-//@   requires wf: wfTask(t)
+//@   requires wf: wfTask(t) && t.Process != nil && t.InIPs != nil
 //@   onspawn modifies execSpawned
 //@   onspawn ensures counted: execSpawned == old(execSpawned) + 1
 //@   modifies *
@@ -1395,7 +1395,7 @@ package scipipe
 //@ ghost func taskChanOwner(ch ref) ref
 
 //@ define wfProcess(p *Process) bool = p != nil && p.workflow != nil && wfInPorts(p.inPorts) && wfInParamPorts(p.inParamPorts) && (forall i string, k string :: i in p.inPorts && k in p.inParamPorts ==> p.inPorts[i].Chan != p.inParamPorts[k].Chan) && p.outPorts != nil && p.PathFuncs != nil && p.PortInfo != nil && (forall k string :: k in p.PortInfo ==> p.PortInfo[k] != nil) && (forall k string :: joinPort(p.PortInfo, k) ==> k in p.inPorts)
-//@ define taskOK(t *Task) bool = wfTask(t) && t.Process != nil && t.portInfos == t.Process.PortInfo && t.cores == t.Process.CoresPerTask && t.workflow == t.Process.workflow && chanCap(t.Done) == 0 && (forall o string :: o in t.OutIPs <==> o in t.Process.PathFuncs) && (forall o string :: o in t.OutIPs ==> validIP(t.OutIPs[o]) && (t.OutIPs[o].doStream <==> (o in t.Process.PortInfo && t.Process.PortInfo[o].doStream)))
+//@ define taskOK(t *Task) bool = wfTask(t) && t.Process != nil && t.InIPs != nil && t.portInfos == t.Process.PortInfo && t.cores == t.Process.CoresPerTask && t.workflow == t.Process.workflow && chanCap(t.Done) == 0 && (forall o string :: o in t.OutIPs <==> o in t.Process.PathFuncs) && (forall o string :: o in t.OutIPs ==> validIP(t.OutIPs[o]) && (t.OutIPs[o].doStream <==> (o in t.Process.PortInfo && t.Process.PortInfo[o].doStream)))
 // Every task that travels through a process's task channel was built by NewTask for that process.
 //@ chaninv *Task task-ok[C04]: taskOK($v) && $v.Process == taskChanOwner($ch)
 
